@@ -343,6 +343,9 @@ func streamRecorder(o *Out, rng *rand.Rand, thorough bool, _ []string) {
 	rec = func(prefix []string) {
 		if len(prefix) > 0 {
 			for _, k := range kinds {
+				if len(prefix) >= 3 && strings.HasPrefix(k, "hist") {
+					continue // a histogram recorder allocates six 1.4-million-entry histograms: the longest sequences on the others only
+				}
 				for _, ivl := range []string{"0", "h"} {
 					if ivl == "h" && k != "grouped" && k != "histGrouped" {
 						continue
